@@ -154,6 +154,7 @@ class EngineRun:
     def snapshot(self) -> dict[str, Any]:
         e = self.engine
         tags = {t.name: t.get_value() for t in e.tags}
+        raw = {t.name: t.value for t in e.tags}   # the value under any simulation (`Simulate: System State = …`)
         nodes = []
         for n in self.program_nodes():
             nodes.append({
@@ -166,6 +167,6 @@ class EngineRun:
                 "child_index": getattr(n, "child_index", None),
                 "interrupt_registered": getattr(n, "interrupt_registered", None),
             })
-        return {"tick": self.ticks, "time": self.clock.now, "tags": tags, "nodes": nodes,
+        return {"tick": self.ticks, "time": self.clock.now, "tags": tags, "raw_tags": raw, "nodes": nodes,
                 "interrupts": [i.node.id for i in e.interpreter.interrupts],
                 "instances": sorted(self.uod.command_instances.keys()) if hasattr(self.uod, "command_instances") else []}
